@@ -981,3 +981,661 @@ Corollary tokinv_exact toks :
   offsets_ok 0 toks ->
   tokens_of_string (texts toks) = (toks, TEnd).
 Proof. intros A B C D. rewrite (tokinv toks A B C), (repos_id toks 0%Z D). reflexivity. Qed.
+
+(* the quirk is real: when start_quirk holds the first token is a CommandName
+   (which no shaped sequence can start with) *)
+Lemma star_not_escape c : is_c CEscape c = true -> N.eqb c star = false.
+Proof.
+  intro H. destruct (N.eqb c star) eqn:E; [|reflexivity]. apply N.eqb_eq in E. subst c.
+  vm_compute in H. discriminate H.
+Qed.
+
+Theorem start_quirk_first_token s :
+  start_quirk s = true ->
+  exists c0 r e, hd_error s = Some c0 /\
+    tokens_of_string s = (mkt [c0] 0%Z TCommandName :: r, e).
+Proof.
+  intro Hq. destruct s as [|c0 [|c1 s']]; try discriminate Hq.
+  unfold start_quirk in Hq. apply andb_true_iff in Hq. destruct Hq as [Hq H3].
+  apply andb_true_iff in Hq. destruct Hq as [H0 H1].
+  unfold tokens_of_string, tokenize, tokenize_with.
+  set (cs := categorize (c0 :: c1 :: s')).
+  assert (Hcs : cs = mkc c0 0%Z (catc c0) :: cf (0 + 1)%Z (c1 :: s')) by reflexivity.
+  assert (Hpc : prev_is_escape (start_prev_cmd points cs) = true).
+  { unfold start_prev_cmd. rewrite Hcs at 1. cbn [categorize_from start_prev_punct].
+    change (prev_is_escape (Some (mkc c1 (0 + 1)%Z (catc c1)))) with (is_c CEscape c1).
+    rewrite H1. unfold cs, categorize. rewrite cf_length, nth_error_cf.
+    destruct (nth_error (c0 :: c1 :: s')
+                (Nat.min (length (c0 :: c1 :: s')) (S (max_point_len points)) - 1)) as [c|];
+      [|discriminate H3].
+    cbn [nth_is] in H3. unfold prev_is_escape. rewrite is_cat_cf. exact H3. }
+  assert (Hround : run_rules Tables.rule_order
+             (mkctx 0%Z None (start_prev_punct cs) (start_prev_cmd points cs) points) cs =
+             RTok (mkt [c0] 0%Z TCommandName) (cf (0 + 1)%Z (c1 :: s'))).
+  { rewrite Hcs at 3. rewrite letter_rules_none by (cbn [ccat]; apply is_c_true; exact H0).
+    rewrite run_rules_cons_none.
+    2:{ cbn [run_rule cx_points cx_prevc_punct]. apply punct_none_find.
+        rewrite <- Hcs. unfold cs, categorize. rewrite chars_of_cf.
+        apply find_point_second_escape. exact H1. }
+    apply run_rules_cons_tok. cbn [run_rule cx_prevc_cmd]. unfold rule_command_name.
+    rewrite Hpc. rewrite is_cat_cf, H0. cbn [categorize_from take_while].
+    rewrite is_cat_cf. cbn [ch].
+    assert (E : is_c CLetter c1 = false).
+    { apply is_c_true in H1. apply is_c_false. rewrite H1. discriminate. }
+    rewrite E, (star_not_escape c1 H1). reflexivity. }
+  assert (Hne : cs <> []) by (rewrite Hcs; discriminate).
+  pose proof (loop_step (length cs) points 0%Z _ _ None cs _ _ Hne Hround) as L.
+  cbv zeta in L.
+  destruct (tokenize_loop (length cs) points _ _ _ _ _) as [ts e] in L.
+  exists c0, ts, e. split; [reflexivity | exact L].
+Qed.
+
+(* ====================================================================== *)
+(* Stage 3: every clean string has a shaped tokenisation, hence the        *)
+(* tokenizer's output is shaped                                            *)
+(* ====================================================================== *)
+
+Lemma span_exists (pb : N -> bool) s : exists a b,
+  s = a ++ b /\ forallb pb a = true /\ nc_not pb (hd_error b) = true.
+Proof.
+  induction s as [|c s IH].
+  - exists [], []. repeat split.
+  - destruct (pb c) eqn:E.
+    + destruct IH as (a & b & H1 & H2 & H3). exists (c :: a), b. cbn [app forallb].
+      rewrite E, H2, <- H1. repeat split. exact H3.
+    + exists [], (c :: s). cbn [app forallb hd_error nc_not]. rewrite E. repeat split.
+Qed.
+
+Lemma drop_blanks_all b y :
+  forallb (is_c CSpacer) b = true -> drop_blanks (b ++ y) = drop_blanks y.
+Proof.
+  induction b as [|c b IH]; intro H; [reflexivity|]. cbn [forallb] in H.
+  apply andb_true_iff in H. destruct H as [H1 H2]. cbn [app drop_blanks]. rewrite H1. apply IH, H2.
+Qed.
+
+Lemma after_spacers_of_decomp b1 e b2 y :
+  forallb (is_c CSpacer) b1 = true -> forallb (is_c CSpacer) b2 = true ->
+  nc_not (is_c CSpacer) (hd_error y) = true ->
+  (e = [] /\ b2 = [] /\ nc_not (is_c CEndOfLine) (hd_error y) = true) \/
+  (exists c, e = [c] /\ is_c CEndOfLine c = true) ->
+  after_spacers (b1 ++ e ++ b2 ++ y) = y.
+Proof.
+  intros F1 F2 Hy Hd. unfold after_spacers. rewrite (drop_blanks_all b1 _ F1).
+  destruct Hd as [(D1 & D2 & D3) | (c & D1 & D2)]; subst.
+  - cbn [app]. rewrite (drop_blanks_id y Hy).
+    destruct y as [|c y']; [reflexivity|]. cbn [drop_eol]. cbn [hd_error nc_not] in D3.
+    apply negb_true_iff in D3. rewrite D3. apply drop_blanks_id. exact Hy.
+  - assert (Hc : is_c CSpacer c = false).
+    { apply is_c_true in D2. apply is_c_false. rewrite D2. discriminate. }
+    cbn [app drop_blanks]. rewrite Hc. cbn [drop_eol]. rewrite D2.
+    rewrite (drop_blanks_all b2 _ F2). apply drop_blanks_id. exact Hy.
+Qed.
+
+Lemma after_spacers_nonblank x : starts_blank x = false -> after_spacers x = x.
+Proof.
+  destruct x as [|c x]; [reflexivity|]. cbn [starts_blank]. intro H.
+  apply orb_false_iff in H. destruct H as [H1 H2].
+  unfold after_spacers. cbn [drop_blanks]. rewrite H1. cbn [drop_eol]. rewrite H2.
+  cbn [drop_blanks]. rewrite H1. reflexivity.
+Qed.
+
+Lemma forallb_blank_text b : forallb (is_c CSpacer) b = true -> forallb text_c b = true.
+Proof.
+  induction b as [|c b IH]; cbn [forallb]; [reflexivity|]. intro H.
+  apply andb_true_iff in H. destruct H as [H1 H2]. rewrite (IH H2), andb_true_r.
+  apply blank_text_clean. rewrite H1. reflexivity.
+Qed.
+
+Lemma has_eol_app a b : has_eol (a ++ b) = has_eol a || has_eol b.
+Proof. unfold has_eol. apply existsb_app. Qed.
+
+(* a Text token, given its first character and that rule 7 does not claim it *)
+Lemma text_token_exists esc c s' :
+  clean (c :: s') = true -> text_c c = true -> starts_blank [c] = false ->
+  negb (esc && is_c CLetter c) = true ->
+  exists x k rest, c :: s' = x ++ rest /\ shape (mkt x 0%Z k) = true /\
+    followc (mkt x 0%Z k) rest = true /\ pre_tok esc (mkt x 0%Z k) = true.
+Proof.
+  intros Hcl Ht Hb Hpre.
+  destruct (span_exists text_c s') as (body & rest & Hs & Hbody & Hrest).
+  exists (c :: body), TText, rest. split; [cbn [app]; rewrite Hs; reflexivity|].
+  assert (Hclx : forallb clean_c (c :: body) = true).
+  { unfold clean in Hcl. rewrite Hs in Hcl. change (c :: body ++ rest) with ((c :: body) ++ rest) in Hcl.
+    rewrite forallb_app in Hcl. apply andb_true_iff in Hcl. tauto. }
+  split; [|split].
+  - unfold shape. cbn [ttext tcat]. rewrite Hclx. cbn [andb shape_cat forallb].
+    rewrite Ht, Hbody. cbn [andb].
+    rewrite after_spacers_nonblank by exact Hb.
+    change (starts_blank (c :: body)) with (starts_blank [c]). rewrite Hb. apply orb_true_r.
+  - unfold followc. cbn [tcat]. exact Hrest.
+  - unfold pre_tok. cbn [tcat ttext starts_letter]. exact Hpre.
+Qed.
+
+Lemma firstn_clean n s : clean s = true -> forallb clean_c (firstn n s) = true.
+Proof.
+  revert n. induction s as [|c s IH]; intros n H; destruct n; try reflexivity.
+  cbn [firstn forallb]. unfold clean in H. cbn [forallb] in H. apply andb_true_iff in H.
+  destruct H as [H1 H2]. rewrite H1. apply IH. exact H2.
+Qed.
+
+Theorem next_token_exists esc s :
+  s <> [] -> clean s = true ->
+  exists x k rest, s = x ++ rest /\ shape (mkt x 0%Z k) = true /\
+    followc (mkt x 0%Z k) rest = true /\ pre_tok esc (mkt x 0%Z k) = true.
+Proof.
+  intros Hne Hcl. destruct s as [|c s']; [congruence|]. clear Hne.
+  assert (Hcc : clean_c c = true /\ clean s' = true).
+  { unfold clean in Hcl. cbn [forallb] in Hcl. apply andb_true_iff in Hcl. exact Hcl. }
+  destruct Hcc as [Hcc Hcs'].
+  destruct (is_c CEscape c) eqn:Eesc.
+  { (* escape *)
+    apply is_c_true in Eesc.
+    assert (Hsym : lookup_sym Tables.symbols_map (catc c) = Some TEscape) by (rewrite Eesc; reflexivity).
+    destruct s' as [|c1 s''].
+    - exists [c], TEscape, []. split; [reflexivity|]. split; [|split; reflexivity].
+      unfold shape. cbn [ttext tcat forallb shape_cat]. rewrite Hcc, Hsym. reflexivity.
+    - assert (Hc1 : clean_c c1 = true).
+      { unfold clean in Hcs'. cbn [forallb] in Hcs'. apply andb_true_iff in Hcs'. tauto. }
+      destruct (esc2_c c1) eqn:E2.
+      + exists [c; c1], TEscapedComment, s''. split; [reflexivity|]. split; [|split; reflexivity].
+        unfold shape. cbn [ttext tcat forallb shape_cat]. rewrite Hcc, Hc1, E2.
+        rewrite (proj2 (is_c_true _ _) Eesc). reflexivity.
+      + destruct (lookup_asym Tables.asym_map CEscape (catc c1)) as [k|] eqn:Ea.
+        * exists [c; c1], k, s''. split; [reflexivity|].
+          assert (Hk : shape_cat k [c; c1] = true /\ followc (mkt [c; c1] 0%Z k) s'' = true /\
+                       pre_tok esc (mkt [c; c1] 0%Z k) = true).
+          { destruct (catc c1) eqn:E1; vm_compute in Ea; try discriminate Ea;
+              inversion Ea; subst k; cbn [shape_cat]; rewrite Eesc, E1;
+              repeat split; reflexivity. }
+          destruct Hk as (K1 & K2 & K3). split; [|split; assumption].
+          unfold shape. cbn [ttext tcat forallb]. rewrite Hcc, Hc1, K1. reflexivity.
+        * exists [c], TEscape, (c1 :: s''). split; [reflexivity|]. split; [|split; [|reflexivity]].
+          -- unfold shape. cbn [ttext tcat forallb shape_cat]. rewrite Hcc, Hsym. reflexivity.
+          -- unfold followc. cbn [tcat hd_error nc_not]. rewrite E2. unfold asym_c. rewrite Ea.
+             reflexivity. }
+  destruct (is_c CComment c) eqn:Ecom.
+  { destruct (span_exists noeol_c s') as (b & rest & Hs & Hb & Hrest).
+    exists (c :: b), TComment, rest. split; [cbn [app]; rewrite Hs; reflexivity|].
+    split; [|split; [|reflexivity]].
+    - unfold shape. cbn [ttext tcat shape_cat]. rewrite Ecom, Hb.
+      rewrite Hs in Hcl. change (c :: b ++ rest) with ((c :: b) ++ rest) in Hcl.
+      unfold clean in Hcl. rewrite forallb_app in Hcl. apply andb_true_iff in Hcl.
+      destruct Hcl as [Hcl _]. rewrite Hcl. reflexivity.
+    - unfold followc. cbn [tcat]. exact Hrest. }
+  destruct (is_c CMathSwitch c) eqn:Ems.
+  { destruct s' as [|c1 s''].
+    - exists [c], TMathSwitch, []. split; [reflexivity|]. split; [|split; reflexivity].
+      unfold shape. cbn [ttext tcat forallb shape_cat]. rewrite Hcc, Ems. reflexivity.
+    - assert (Hc1 : clean_c c1 = true).
+      { unfold clean in Hcs'. cbn [forallb] in Hcs'. apply andb_true_iff in Hcs'. tauto. }
+      destruct (is_c CMathSwitch c1) eqn:E1.
+      + exists [c; c1], TDisplayMathSwitch, s''. split; [reflexivity|]. split; [|split; reflexivity].
+        unfold shape. cbn [ttext tcat forallb shape_cat]. rewrite Hcc, Hc1, Ems, E1. reflexivity.
+      + exists [c], TMathSwitch, (c1 :: s''). split; [reflexivity|]. split; [|split; [|reflexivity]].
+        * unfold shape. cbn [ttext tcat forallb shape_cat]. rewrite Hcc, Ems. reflexivity.
+        * unfold followc. cbn [tcat hd_error nc_not]. rewrite E1. reflexivity. }
+  destruct (lookup_sym Tables.symbols_map (catc c)) as [k|] eqn:Esym.
+  { exists [c], k, s'. split; [reflexivity|].
+    assert (Hk : shape_cat k [c] = true /\ followc (mkt [c] 0%Z k) s' = true /\
+                 pre_tok esc (mkt [c] 0%Z k) = true).
+    { unfold is_c in Eesc.
+      destruct (catc c) eqn:Ec; vm_compute in Esym; try discriminate Esym;
+        try (vm_compute in Eesc; discriminate Eesc);
+        inversion Esym; subst k; cbn [shape_cat]; rewrite Ec; repeat split; reflexivity. }
+    destruct Hk as (K1 & K2 & K3). split; [|split; assumption].
+    unfold shape. cbn [ttext tcat forallb]. rewrite Hcc, K1. reflexivity. }
+  destruct (starts_blank [c]) eqn:Eb.
+  { (* blank or end of line: MergedSpacer, or a Text after the roll-back *)
+    destruct (after_spacers_decomp (c :: s')) as (b1 & e & b2 & Hx & F1 & F2 & H3 & Hd).
+    set (r3 := after_spacers (c :: s')) in *.
+    assert (Hblank : is_c CSpacer c || is_c CEndOfLine c = true) by exact Eb.
+    assert (Hde : forallb text_c e = true /\ (e = [] \/ has_eol e = true)).
+    { destruct Hd as [(D1 & _) | (c' & D1 & D2)]; subst e; [split; [reflexivity | left; reflexivity]|].
+      split; [|right; unfold has_eol; cbn [existsb]; rewrite D2; reflexivity].
+      cbn [forallb]. rewrite andb_true_r. apply blank_text_clean. rewrite D2. apply orb_true_r. }
+    destruct Hde as [Hte Hee].
+    destruct (match r3 with c' :: _ => rollback_c c' | [] => false end) eqn:Erb.
+    - destruct r3 as [|c' tl] eqn:Er3; [discriminate Erb|].
+      destruct (span_exists text_c tl) as (body & rest & Htl & Hbody & Hrest).
+      exists (b1 ++ e ++ b2 ++ c' :: body), TText, rest.
+      assert (Hsplit : c :: s' = (b1 ++ e ++ b2 ++ c' :: body) ++ rest).
+      { rewrite Hx at 1. rewrite Htl. rewrite <- !app_assoc. reflexivity. }
+      split; [exact Hsplit|].
+      assert (Hxc : exists y, b1 ++ e ++ b2 ++ c' :: body = c :: y).
+      { destruct (b1 ++ e ++ b2 ++ c' :: body) as [|a y] eqn:E.
+        - exfalso. destruct b1; [|discriminate E]. destruct e; [|discriminate E].
+          destruct b2; discriminate E.
+        - cbn [app] in Hsplit. inversion Hsplit; subst. eauto. }
+      destruct Hxc as (y & Hy).
+      split; [|split].
+      + unfold shape. cbn [ttext tcat shape_cat].
+        rewrite Hsplit in Hcl. unfold clean in Hcl. rewrite forallb_app in Hcl.
+        apply andb_true_iff in Hcl. destruct Hcl as [Hcl _]. rewrite Hcl. cbn [andb].
+        rewrite !forallb_app. cbn [forallb].
+        rewrite (forallb_blank_text b1 F1), (forallb_blank_text b2 F2), Hte, Hbody.
+        rewrite (proj1 (rollback_text c' Erb)). cbn [andb].
+        rewrite (after_spacers_of_decomp b1 e b2 (c' :: body) F1 F2).
+        * rewrite Erb. reflexivity.
+        * exact H3.
+        * exact Hd.
+      + unfold followc. cbn [tcat]. exact Hrest.
+      + unfold pre_tok. cbn [tcat ttext]. rewrite Hy. cbn [starts_letter].
+        rewrite (is_c_false CLetter c); [rewrite andb_false_r; reflexivity|].
+        apply blank_text_clean. exact Hblank.
+    - exists (b1 ++ e ++ b2), TMergedSpacer, r3.
+      split; [rewrite <- !app_assoc; exact Hx|].
+      assert (Hxne : b1 ++ e ++ b2 <> []).
+      { intro E. destruct b1; [|discriminate E]. destruct e as [|? ?] eqn:Ee; [|discriminate E].
+        destruct b2; [|discriminate E]. cbn [app] in Hx.
+        rewrite <- Hx in H3. cbn [hd_error nc_not] in H3. apply negb_true_iff in H3.
+        destruct Hd as [(_ & _ & D3) | (c' & D1 & _)]; [|discriminate D1].
+        rewrite <- Hx in D3. cbn [hd_error nc_not] in D3. apply negb_true_iff in D3.
+        rewrite H3, D3 in Hblank. discriminate Hblank. }
+      split; [|split; [|reflexivity]].
+      + unfold shape. cbn [ttext tcat shape_cat].
+        assert (Hclx : forallb clean_c (b1 ++ e ++ b2) = true).
+        { rewrite Hx in Hcl. unfold clean in Hcl. rewrite !app_assoc in Hcl.
+          rewrite forallb_app in Hcl. apply andb_true_iff in Hcl. destruct Hcl as [Hcl _].
+          rewrite <- app_assoc in Hcl. exact Hcl. }
+        rewrite Hclx. cbn [andb].
+        destruct (b1 ++ e ++ b2) as [|a y] eqn:E; [congruence|]. rewrite <- E.
+        replace (b1 ++ e ++ b2) with (b1 ++ e ++ b2 ++ []) by (rewrite app_nil_r; reflexivity).
+        rewrite (after_spacers_of_decomp b1 e b2 [] F1 F2); [reflexivity | reflexivity |].
+        destruct Hd as [(D1 & D2 & _) | D]; [left; repeat split; assumption | right; exact D].
+      + unfold followc. cbn [tcat ttext].
+        assert (R1 : nc_not rollback_c (hd_error r3) = true).
+        { destruct r3 as [|c' tl]; [reflexivity|]. cbn [hd_error nc_not]. rewrite Erb. reflexivity. }
+        rewrite R1, H3. cbn [andb].
+        destruct Hd as [(_ & _ & D3) | (c' & D1 & D2)].
+        * rewrite D3. apply orb_true_r.
+        * subst e. rewrite !has_eol_app. unfold has_eol at 2. cbn [existsb]. rewrite D2.
+          cbn [orb]. rewrite orb_true_r. reflexivity. }
+  (* not a blank *)
+  assert (Htc : text_c c = true).
+  { unfold text_c, clean_c, is_c, starts_blank, is_c in *.
+    destruct (catc c); try reflexivity; vm_compute in Esym; try discriminate Esym;
+      vm_compute in Ecom; try discriminate Ecom; vm_compute in Ems; discriminate Ems. }
+  destruct (esc && is_c CLetter c) eqn:Ecmd.
+  2:{ apply text_token_exists; try assumption. rewrite Ecmd. reflexivity. }
+  apply andb_true_iff in Ecmd. destruct Ecmd as [Hesc Hl]. subst esc.
+  destruct (find_point points (c :: s')) as [q|] eqn:Efp.
+  - apply find_point_in in Efp. destruct Efp as [Iq Fq].
+    exists q, TPunctuationCommandName, (skipn (length q) (c :: s')).
+    split; [rewrite <- Fq at 1; symmetry; apply firstn_skipn|].
+    split; [|split; reflexivity].
+    unfold shape. cbn [ttext tcat shape_cat]. rewrite (In_mem_str _ _ Iq), andb_true_r.
+    rewrite <- Fq. apply firstn_clean. exact Hcl.
+  - destruct (span_exists ls_c s') as (m & rest & Hs & Hm & Hrest).
+    exists (c :: m), TCommandName, rest. split; [cbn [app]; rewrite Hs; reflexivity|].
+    split; [|split; [|reflexivity]].
+    + unfold shape. cbn [ttext tcat shape_cat]. rewrite Hl, Hm.
+      rewrite Hs in Hcl. change (c :: m ++ rest) with ((c :: m) ++ rest) in Hcl.
+      unfold clean in Hcl. rewrite forallb_app in Hcl. apply andb_true_iff in Hcl.
+      destruct Hcl as [Hcl _]. rewrite Hcl. reflexivity.
+    + unfold followc. cbn [tcat ttext]. rewrite Hrest. cbn [andb app]. rewrite <- Hs, Efp. reflexivity.
+Qed.
+
+Definition shaped (toks : list token) : Prop := Forall (fun t => shape t = true) toks.
+
+(* every clean string is the concatenation of a shaped sequence *)
+Lemma chain_exists n : forall s esc, (length s <= n)%nat -> clean s = true ->
+  exists toks, texts toks = s /\ shaped toks /\ follows_ok toks = true /\ pre_ok esc toks = true.
+Proof.
+  induction n as [|n IH]; intros s esc Hlen Hcl.
+  - destruct s; [|cbn in Hlen; lia]. exists []. repeat split. constructor.
+  - destruct s as [|c s'] eqn:Es.
+    { exists []. repeat split. constructor. }
+    rewrite <- Es in *.
+    destruct (next_token_exists esc s ltac:(rewrite Es; discriminate) Hcl)
+      as (x & k & rest & Hs & Hsh & Hfc & Hpre).
+    pose proof (shape_nonempty _ Hsh) as Hne. cbn [ttext] in Hne.
+    assert (Hclr : clean rest = true).
+    { rewrite Hs in Hcl. unfold clean in *. rewrite forallb_app in Hcl.
+      apply andb_true_iff in Hcl. tauto. }
+    destruct (IH rest (ends_esc (mkt x 0%Z k))) as (r & R1 & R2 & R3 & R4).
+    + rewrite Hs, app_length in Hlen. destruct x; [congruence|]. cbn [length] in Hlen. lia.
+    + exact Hclr.
+    + exists (mkt x 0%Z k :: r). split; [rewrite texts_cons, R1; cbn [ttext]; symmetry; exact Hs|].
+      split; [constructor; assumption|]. split; [|exact Hpre].
+      cbn [follows_ok]. unfold follow. rewrite R1, Hfc, R4, R3. reflexivity.
+Qed.
+
+Lemma repos_texts toks : forall p, texts (repos p toks) = texts toks.
+Proof.
+  induction toks as [|t r IH]; intro p; [reflexivity|].
+  cbn [repos]. rewrite !texts_cons, IH. reflexivity.
+Qed.
+
+Lemma shape_pos x p q k : shape (mkt x p k) = shape (mkt x q k).
+Proof. reflexivity. Qed.
+
+Lemma repos_shaped toks : forall p, shaped toks -> shaped (repos p toks).
+Proof.
+  induction toks as [|t r IH]; intros p H; [constructor|].
+  inversion H; subst. cbn [repos]. constructor; [|apply IH; assumption].
+  destruct t as [x q k]. exact H2.
+Qed.
+
+Lemma repos_pre_ok esc toks p : pre_ok esc (repos p toks) = pre_ok esc toks.
+Proof. destruct toks as [|t r]; reflexivity. Qed.
+
+Lemma repos_follows_ok toks : forall p, follows_ok (repos p toks) = follows_ok toks.
+Proof.
+  induction toks as [|t r IH]; intro p; [reflexivity|].
+  cbn [repos follows_ok]. rewrite IH. f_equal.
+  unfold follow. rewrite repos_texts, repos_pre_ok. reflexivity.
+Qed.
+
+Lemma repos_offsets toks : forall p, offsets_ok p (repos p toks).
+Proof. induction toks as [|t r IH]; intro p; cbn [repos offsets_ok]; auto. Qed.
+
+Lemma clean_ign s : clean s = true -> Forall (fun c => ign c = false) (categorize s).
+Proof.
+  unfold categorize. generalize 0%Z. induction s as [|c s IH]; intros p H; cbn [categorize_from]; constructor.
+  - unfold clean in H. cbn [forallb] in H. apply andb_true_iff in H. destruct H as [H _].
+    unfold clean_c in H. apply negb_true_iff in H. exact H.
+  - apply IH. unfold clean in *. cbn [forallb] in H. apply andb_true_iff in H. tauto.
+Qed.
+
+(* TOKINV, converse: the output of the tokenizer on a NUL/DEL-free string
+   that does not trigger the index-0 quirk is shaped, satisfies the follow
+   conditions, and carries consecutive offsets *)
+Theorem tokens_shaped s :
+  clean s = true -> start_quirk s = false ->
+  exists toks, tokens_of_string s = (toks, TEnd) /\ texts toks = s /\
+    shaped toks /\ follows_ok toks = true /\ first_ok toks = true /\ offsets_ok 0 toks.
+Proof.
+  intros Hcl Hq.
+  destruct (chain_exists (length s) s false (le_n _) Hcl) as (toks & T1 & T2 & T3 & T4).
+  assert (Hfirst : first_ok toks = true).
+  { unfold first_ok. rewrite T4, T1, Hq. reflexivity. }
+  exists (repos 0 toks). split; [rewrite <- T1; apply tokinv; assumption|].
+  split; [rewrite repos_texts; exact T1|]. split; [apply repos_shaped; exact T2|].
+  split; [rewrite repos_follows_ok; exact T3|]. split; [|apply repos_offsets].
+  unfold first_ok. rewrite repos_pre_ok, repos_texts. exact Hfirst.
+Qed.
+
+(* without the quirk hypothesis the statement is false *)
+Theorem tokens_shaped_refuted :
+  exists s, clean s = true /\ forallb shape (fst (tokens_of_string s)) = true /\
+            first_ok (fst (tokens_of_string s)) = false.
+Proof. exists [97; 92]%N. vm_compute. repeat split. Qed.
+
+(* re-tokenising the concatenated token texts gives the same tokens; this
+   needs neither shape nor the quirk hypothesis *)
+Theorem retokenize_id s :
+  clean s = true ->
+  tokens_of_string (texts (fst (tokens_of_string s))) = tokens_of_string s.
+Proof.
+  intro Hcl. destruct (tokens_of_string s) as [toks e] eqn:E. cbn [fst].
+  unfold texts. rewrite (tokens_concat_exact s toks e E (clean_ign s Hcl)). exact E.
+Qed.
+
+(* ====================================================================== *)
+(* Stage 3: deleting an argument spacer from the text deletes exactly      *)
+(* that token                                                              *)
+(* ====================================================================== *)
+
+Definition open_tok (o : token) : Prop := tcat o = TGroupBegin \/ tcat o = TBracketBegin.
+
+(* what the token before the deleted spacer must satisfy: a Comment would
+   swallow the opening character, and a sizing prefix ("\left {") would fuse
+   with it into a PunctuationCommandName *)
+Definition last_tok_ok (l : token) (rest : str) : bool :=
+  match tcat l with
+  | TComment => false
+  | TCommandName =>
+    match find_point points (ttext l ++ rest) with None => true | Some _ => false end
+  | _ => true
+  end.
+
+Fixpoint last_ok (a : list token) (rest : str) : bool :=
+  match a with
+  | [] => true
+  | [l] => last_tok_ok l rest
+  | _ :: a' => last_ok a' rest
+  end.
+
+Fixpoint drop_ls (s : str) : str :=
+  match s with c :: s' => if ls_c c then drop_ls s' else s | [] => [] end.
+
+(* table fact: after its letters every sizing command has a delimiter, and an
+   opening brace/bracket occurs in it only as its first character or directly
+   after an escape that is its first character *)
+Definition open_c (c : N) : bool := is_c CGroupBegin c || is_c CBracketBegin c.
+Definition delim_ok_b (q : str) : bool :=
+  match drop_ls q with
+  | [] => false
+  | d0 :: tl => forallb (fun d => negb (open_c d)) tl ||
+                (is_c CEscape d0 && match tl with [_] => true | _ => false end)
+  end.
+
+Lemma points_delim_ok_b : forallb delim_ok_b points = true.
+Proof. vm_compute. reflexivity. Qed.
+
+Lemma open_tok_char o : shape o = true -> open_tok o ->
+  exists d, ttext o = [d] /\ open_c d = true.
+Proof.
+  unfold shape. intros H Ho. apply andb_true_iff in H. destruct H as [_ H].
+  assert (G : match ttext o with
+              | [c] => match lookup_sym Tables.symbols_map (catc c) with
+                       | Some k' => tc_beq k' (tcat o) | None => false end
+              | _ => false end = true).
+  { destruct Ho as [Ho|Ho]; rewrite Ho in H |- *; exact H. }
+  destruct (ttext o) as [|d [|? ?]]; try discriminate G. exists d. split; [reflexivity|].
+  destruct (lookup_sym Tables.symbols_map (catc d)) as [k'|] eqn:E; [|discriminate G].
+  apply tc_eqb_eq in G. subst k'. unfold open_c, is_c.
+  destruct Ho as [Ho|Ho]; rewrite Ho in E; destruct (catc d); vm_compute in E; try discriminate E;
+    reflexivity.
+Qed.
+
+Lemma open_char_facts d : open_c d = true ->
+  text_c d = false /\ rollback_c d = false /\ is_c CSpacer d = false /\
+  is_c CEndOfLine d = false /\ is_c CMathSwitch d = false /\ ls_c d = false.
+Proof.
+  unfold open_c, text_c, rollback_c, ls_c, is_c. intro H.
+  assert (Hs : N.eqb d star = true -> False).
+  { intro E. apply N.eqb_eq in E. subst d. vm_compute in H. discriminate H. }
+  destruct (N.eqb d star); [exfalso; apply Hs; reflexivity|].
+  destruct (catc d); vm_compute in H; try discriminate H; repeat split; reflexivity.
+Qed.
+
+Lemma spacer_starts_blank sp : shape sp = true -> tcat sp = TMergedSpacer ->
+  exists c x, ttext sp = c :: x /\ esc2_c c = true.
+Proof.
+  unfold shape. intros H Hk. apply andb_true_iff in H. destruct H as [_ H]. rewrite Hk in H.
+  cbn [shape_cat] in H. destruct (ttext sp) as [|c x] eqn:Ex; [discriminate H|].
+  exists c, x. split; [reflexivity|].
+  destruct (after_spacers (c :: x)) eqn:Ea; [|discriminate H].
+  unfold after_spacers in Ea. cbn [drop_blanks] in Ea.
+  unfold esc2_c. unfold is_c in Ea.
+  destruct (catc c) eqn:Ec; try reflexivity; exfalso;
+    cbn [cc_beq] in Ea; cbn [drop_eol] in Ea; unfold is_c in Ea; rewrite Ec in Ea;
+    cbn [cc_beq drop_blanks] in Ea; unfold is_c in Ea; rewrite Ec in Ea; cbn [cc_beq] in Ea;
+    discriminate Ea.
+Qed.
+
+Lemma follow_last_drop l sp o b :
+  shape sp = true -> shape o = true -> tcat sp = TMergedSpacer -> open_tok o ->
+  follow l (sp :: o :: b) = true -> last_tok_ok l (texts (o :: b)) = true ->
+  follow l (o :: b) = true.
+Proof.
+  intros Hsp Hso Hk Ho Hf Hl.
+  destruct (open_tok_char o Hso Ho) as (d & Ed & Hd).
+  destruct (open_char_facts d Hd) as (D1 & D2 & D3 & D4 & D5 & D6).
+  destruct (spacer_starts_blank sp Hsp Hk) as (c & x & Ec & Hc).
+  unfold follow in *. apply andb_true_iff in Hf. destruct Hf as [Hfc _].
+  apply andb_true_iff. split.
+  2:{ cbn [pre_ok]. unfold pre_tok. destruct Ho as [Ho|Ho]; rewrite Ho; reflexivity. }
+  rewrite texts_cons, Ed in *. rewrite texts_cons, Ec in Hfc. cbn [app] in *.
+  unfold followc in *. unfold last_tok_ok in Hl. cbn [hd_error nc_not] in *.
+  destruct (tcat l); try reflexivity.
+  - (* TEscape: cannot stand before a spacer *)
+    rewrite Hc in Hfc. discriminate Hfc.
+  - discriminate Hl.
+  - rewrite D2, D3, D4. cbn [negb andb]. apply orb_true_r.
+  - rewrite D5. reflexivity.
+  - rewrite D6. cbn [negb andb]. exact Hl.
+  - rewrite D1. reflexivity.
+Qed.
+
+(* a sizing command that matches after the deletion but not before it must
+   reach across the deleted spacer *)
+Lemma prefix_beyond (X : str) : forall D SP T,
+  firstn (length D) (X ++ T) = D -> firstn (length D) (X ++ SP ++ T) <> D ->
+  exists D2, D = X ++ D2 /\ D2 <> [] /\ firstn (length D2) T = D2.
+Proof.
+  induction X as [|x X IH]; intros D SP T H1 H2.
+  - cbn [app] in *. exists D. split; [reflexivity|]. split; [|exact H1].
+    intro E. subst D. apply H2. reflexivity.
+  - destruct D as [|d D]; [exfalso; apply H2; reflexivity|].
+    cbn [app length firstn] in H1, H2. injection H1 as E1 E2. subst d.
+    destruct (IH D SP T E2) as (D2 & A & B & C).
+    + intro E. apply H2. rewrite E. reflexivity.
+    + exists D2. split; [cbn [app]; f_equal; exact A|]. split; assumption.
+Qed.
+
+Lemma ls_prefix_split cmd : forall q W,
+  forallb ls_c cmd = true -> nc_not ls_c (hd_error W) = true ->
+  firstn (length q) (cmd ++ W) = q -> drop_ls q <> [] ->
+  q = cmd ++ drop_ls q /\ firstn (length (drop_ls q)) W = drop_ls q.
+Proof.
+  induction cmd as [|c cmd IH]; intros q W Hc HW Hq Hd.
+  - cbn [app] in *. destruct q as [|w q']; [cbn in Hd; congruence|].
+    destruct W as [|w0 W']; [discriminate Hq|]. cbn [length firstn] in Hq.
+    injection Hq as E1 E2. subst w0. cbn [hd_error nc_not] in HW. apply negb_true_iff in HW.
+    cbn [drop_ls]. rewrite HW. split; [reflexivity|]. cbn [length firstn]. rewrite E2. reflexivity.
+  - destruct q as [|a q']; [cbn in Hd; congruence|].
+    cbn [app length firstn] in Hq. injection Hq as E1 E2. subst a.
+    cbn [forallb] in Hc. apply andb_true_iff in Hc. destruct Hc as [Hc1 Hc2].
+    cbn [drop_ls] in *. rewrite Hc1 in *.
+    destruct (IH q' W Hc2 HW E2 Hd) as [A B]. split; [cbn [app]; f_equal; exact A | exact B].
+Qed.
+
+Lemma shape_single_escape k e :
+  is_c CEscape e = true -> shape_cat k [e] = true -> k = TEscape.
+Proof.
+  intros He H. apply is_c_true in He.
+  destruct k; try reflexivity; exfalso; cbn [shape_cat] in H;
+    try discriminate H;
+    try (unfold text_c, is_c, after_spacers, drop_blanks, drop_eol, is_c in H; rewrite He in H;
+         vm_compute in H; discriminate H).
+  (* PunctuationCommandName: every sizing command has at least two characters *)
+  apply mem_str_In in H. pose proof points_second_not_escape_b as B.
+  rewrite forallb_forall in B. specialize (B _ H). discriminate B.
+Qed.
+
+Lemma texts_nil_shaped a : shaped a -> texts a = [] -> a = [].
+Proof.
+  intros Hs H. destruct a as [|u a']; [reflexivity|]. exfalso.
+  inversion Hs; subst. apply (shape_nonempty u); [assumption|].
+  rewrite texts_cons in H. apply app_eq_nil in H. tauto.
+Qed.
+
+Lemma shaped_app a b : shaped (a ++ b) <-> shaped a /\ shaped b.
+Proof. unfold shaped. apply Forall_app. Qed.
+
+Lemma texts_hd_cons t r : ttext t <> [] -> hd_error (texts (t :: r)) = hd_error (ttext t).
+Proof. intro H. rewrite texts_cons. destruct (ttext t); [congruence | reflexivity]. Qed.
+
+(* a CommandName further to the left is not affected *)
+Lemma cmd_find_stable t t' a' sp o b :
+  shaped (t :: t' :: a' ++ sp :: o :: b) ->
+  follows_ok (t :: t' :: a' ++ sp :: o :: b) = true ->
+  tcat t = TCommandName -> tcat sp = TMergedSpacer -> open_tok o ->
+  find_point points (ttext t ++ texts (t' :: a' ++ o :: b)) = None.
+Proof.
+  intros Hsh Hfo Hk Hsk Ho.
+  inversion Hsh as [|? ? Hst Hsh1]; subst. inversion Hsh1 as [|? ? Hst' Hsh2]; subst.
+  apply shaped_app in Hsh2. destruct Hsh2 as [Hsa Hsh3].
+  inversion Hsh3 as [|? ? Hssp Hsh4]; subst. inversion Hsh4 as [|? ? Hso Hsb]; subst.
+  destruct (open_tok_char o Hso Ho) as (d & Ed & Hd).
+  destruct (spacer_starts_blank sp Hssp Hsk) as (cb & xb & Eb & Hcb).
+  pose proof (shape_nonempty t' Hst') as Hne'.
+  cbn [follows_ok] in Hfo. apply andb_true_iff in Hfo. destruct Hfo as [Hft Hfo1].
+  unfold follow in Hft. apply andb_true_iff in Hft. destruct Hft as [Hfc _].
+  unfold followc in Hfc. rewrite Hk in Hfc. apply andb_true_iff in Hfc. destruct Hfc as [Hls Hnone].
+  destruct (find_point points (ttext t ++ texts (t' :: a' ++ sp :: o :: b))) eqn:Ew; [discriminate Hnone|].
+  clear Hnone.
+  destruct (find_point points (ttext t ++ texts (t' :: a' ++ o :: b))) as [q|] eqn:Ew'; [|reflexivity].
+  exfalso. apply find_point_in in Ew'. destruct Ew' as [Iq Fq].
+  pose proof (find_point_none _ _ Ew q Iq) as Nq.
+  (* the command name is all letters/stars *)
+  assert (Hcmd : forallb ls_c (ttext t) = true).
+  { unfold shape in Hst. apply andb_true_iff in Hst. destruct Hst as [_ Hst]. rewrite Hk in Hst.
+    cbn [shape_cat] in Hst. destruct (ttext t) as [|c m]; [discriminate Hst|].
+    apply andb_true_iff in Hst. destruct Hst as [H1 H2]. cbn [forallb]. unfold ls_c at 1.
+    rewrite H1, H2. reflexivity. }
+  pose proof points_delim_ok_b as B. rewrite forallb_forall in B. specialize (B q Iq).
+  unfold delim_ok_b in B.
+  assert (Hdq : drop_ls q <> []) by (destruct (drop_ls q); [discriminate B | discriminate]).
+  assert (Hhd : hd_error (texts (t' :: a' ++ o :: b)) = hd_error (texts (t' :: a' ++ sp :: o :: b))).
+  { rewrite !texts_hd_cons by exact Hne'. reflexivity. }
+  rewrite <- Hhd in Hls.
+  destruct (ls_prefix_split (ttext t) q _ Hcmd Hls Fq Hdq) as [Eq FD].
+  set (D := drop_ls q) in *.
+  set (X := texts (t' :: a')).
+  assert (EW' : texts (t' :: a' ++ o :: b) = X ++ texts (o :: b)).
+  { change (t' :: a' ++ o :: b) with ((t' :: a') ++ o :: b). apply texts_app. }
+  assert (EW : texts (t' :: a' ++ sp :: o :: b) = X ++ ttext sp ++ texts (o :: b)).
+  { change (t' :: a' ++ sp :: o :: b) with ((t' :: a') ++ sp :: o :: b).
+    rewrite texts_app, texts_cons. reflexivity. }
+  rewrite EW' in FD. rewrite EW in Nq.
+  assert (ND : firstn (length D) (X ++ ttext sp ++ texts (o :: b)) <> D).
+  { intro E. apply Nq. rewrite Eq at 1. rewrite app_length, firstn_app_2, E. symmetry. exact Eq. }
+  destruct (prefix_beyond X D _ _ FD ND) as (D2 & ED & ND2 & FD2).
+  rewrite texts_cons, Ed in FD2. destruct D2 as [|d' D2']; [congruence|].
+  cbn [app length firstn] in FD2. injection FD2 as E1 E2. subst d'.
+  (* X is not empty *)
+  assert (HX : exists x0 X', X = x0 :: X').
+  { unfold X. rewrite texts_cons. destruct (ttext t') as [|x0 y]; [congruence|]. cbn [app]. eauto. }
+  destruct HX as (x0 & X' & EX). rewrite EX in ED. cbn [app] in ED. rewrite ED in B.
+  assert (Hopen : forallb (fun d0 => negb (open_c d0)) (X' ++ d :: D2') = false).
+  { rewrite forallb_app. cbn [forallb]. rewrite Hd. cbn [negb andb]. apply andb_false_r. }
+  rewrite Hopen in B. cbn [orb] in B. apply andb_true_iff in B. destruct B as [B0 B1].
+  destruct X' as [|? ?]; [|destruct X'; discriminate B1].
+  (* so X = [escape]: a lone Escape token before the spacer -- impossible *)
+  unfold X in EX. rewrite texts_cons in EX.
+  destruct (ttext t') as [|y0 y] eqn:Et'; [congruence|].
+  cbn [app] in EX. injection EX as E0 E1'. subst y0.
+  apply app_eq_nil in E1'. destruct E1' as [Ey Ea']. subst y.
+  apply texts_nil_shaped in Ea'; [|exact Hsa]. subst a'.
+  assert (Hk' : tcat t' = TEscape).
+  { unfold shape in Hst'. apply andb_true_iff in Hst'. destruct Hst' as [_ Hst'].
+    rewrite Et' in Hst'. apply (shape_single_escape _ x0 B0 Hst'). }
+  cbn [app follows_ok] in Hfo1. apply andb_true_iff in Hfo1. destruct Hfo1 as [Hft' _].
+  unfold follow in Hft'. apply andb_true_iff in Hft'. destruct Hft' as [Hfc' _].
+  unfold followc in Hfc'. rewrite Hk', texts_cons, Eb in Hfc'. cbn [app hd_error nc_not] in Hfc'.
+  rewrite Hcb in Hfc'. discriminate Hfc'.
+Qed.
+
+(* deleting one argument spacer keeps shape and follow *)
+Lemma drop_spacer_chain sp o b : forall a,
+  shaped (a ++ sp :: o :: b) -> follows_ok (a ++ sp :: o :: b) = true ->
+  tcat sp = TMergedSpacer -> open_tok o -> last_ok a (texts (o :: b)) = true ->
+  shaped (a ++ o :: b) /\ follows_ok (a ++ o :: b) = true.
+Proof.
+  induction a as [|t a IH]; intros Hsh Hfo Hk Ho Hl.
+  - cbn [app] in *. inversion Hsh; subst. split; [assumption|].
+    cbn [follows_ok] in Hfo. apply andb_true_iff in Hfo. tauto.
+  - cbn [app] in Hsh, Hfo. inversion Hsh as [|? ? Hst Hsh']; subst.
+    pose proof Hfo as Hfo0.
+    cbn [follows_ok] in Hfo. apply andb_true_iff in Hfo. destruct Hfo as [Hft Hfo'].
+    assert (Hl' : last_ok a (texts (o :: b)) = true).
+    { destruct a as [|t' a']; [reflexivity|]. exact Hl. }
+    destruct (IH Hsh' Hfo' Hk Ho Hl') as [IH1 IH2].
+    split; [cbn [app]; constructor; assumption|].
+    cbn [app follows_ok]. rewrite IH2, andb_true_r.
+    destruct a as [|t' a'].
+    + cbn [app] in *. inversion Hsh' as [|? ? Hssp Hsh'']; subst. inversion Hsh'' as [|? ? Hso ?]; subst.
+      apply (follow_last_drop t sp o b Hssp Hso Hk Ho Hft). exact Hl.
+    + cbn [app] in *. inversion Hsh' as [|? ? Hst' ?]; subst.
+      pose proof (shape_nonempty t' Hst') as Hne'.
+      unfold follow in *. apply andb_true_iff in Hft. destruct Hft as [Hfc Hpre].
+      cbn [pre_ok] in *. rewrite Hpre, andb_true_r.
+      unfold followc in *. rewrite !texts_hd_cons by exact Hne'.
+      rewrite !texts_hd_cons in Hfc by exact Hne'.
+      destruct (tcat t) eqn:Ek; try exact Hfc.
+      apply andb_true_iff in Hfc. destruct Hfc as [Hls _]. rewrite Hls. cbn [andb].
+      rewrite (cmd_find_stable t t' a' sp o b Hsh Hfo0 Ek Hk Ho). reflexivity.
+Qed.
